@@ -64,6 +64,12 @@ class IntArr(Model):
     def m_len(self, ex, st, node):
         return self.length
 
+    def m_iter(self, ex, st, node):
+        if self.length is None:
+            raise NotInSubset('iteration over an array of unknown length')
+        arr = st.heap[self.name]
+        return SymIter(self.length, lambda ex_, st_, k: SInt(z3.Select(arr, to_int(k))))
+
 
 class Table2(Model):
     """read-only 2-D integer table given by an uninterpreted function F(row, col); ``t[:, :w]`` iterates rows"""
